@@ -467,6 +467,54 @@ def run_case(spec, ctx):
         if da == db:
             mech = "digest-unchanged-by-" + (label.split(":")[1] if ":" in label else label)
             ctx.violation(mech, dict(w, serialized=sa.decode("utf-8", "replace")[:400], original=repr(ma)[:300], edited=repr(mb)[:300]))
+    # ---- end to end through the real execute_verification: only the GnuPG binary is replaced by an object that accepts a
+    # signature iff it was made for exactly the digest it is handed ("SIG:" + digest).  The original is verified first,
+    # then the edited play carrying the ORIGINAL's signature - the order a multi-play playbook is processed in.
+    if not same and da is not None and db is not None and isinstance(a.get("vars"), dict) and isinstance(b.get("vars"), dict) and rng.random() < 0.3:
+        import base64
+
+        class GResult(object):
+            def __init__(self, ok):
+                self.valid = ok
+                self.status = "signature valid" if ok else "signature bad"
+
+            def __bool__(self):
+                return self.valid
+            __nonzero__ = __bool__
+
+        class FakeGPG(object):
+            def __init__(self, *a_, **k_):
+                pass
+
+            def import_keys(self, key):
+                class R(object):
+                    count = 1
+                return R()
+
+            def verify_data(self, fn, data):
+                with open(fn, "rb") as fh:
+                    return GResult(fh.read() == b"SIG:" + bytes(data))
+        saved_gpg, saved_rev = pv.gnupg.GPG, pv.get_play_revocation_list
+        pv.gnupg.GPG = FakeGPG
+        pv.get_play_revocation_list = lambda content: []
+        try:
+            sig = base64.b64encode(b"SIG:" + bytes(da)).decode()
+            a2, b2 = copy.deepcopy(a), copy.deepcopy(b)
+            a2["vars"]["insights_signature"] = sig
+            b2["vars"]["insights_signature"] = sig
+            if digest(a2)[0] == da and digest(b2)[0] == db:      # the signature itself is among the excluded elements
+                ctx.count("end_to_end_signature_checks")
+                try:
+                    pv.verify(a2)
+                except pv.PlaybookVerificationError as ex:
+                    ctx.violation("correctly-signed-play-rejected", dict(w, error=str(ex)[:200]))
+                try:
+                    pv.verify(b2)
+                    ctx.violation("edited-play-accepted-with-the-signature-of-the-original", dict(w, original=repr(ma)[:300], edited=repr(mb)[:300]))
+                except pv.PlaybookVerificationError:
+                    pass
+        finally:
+            pv.gnupg.GPG, pv.get_play_revocation_list = saved_gpg, saved_rev
     # ---- error clauses and revocation, GnuPG stubbed -------------------------
     if rng.random() < 0.15:
         saved = (pv.execute_verification, pv.get_play_revocation_list)
